@@ -204,6 +204,8 @@ pub struct Model {
     pub dropped_this_pass: Vec<ObjId>,
     pub trace_seen_in_call: bool,
     pub threshold_changed: bool,
+    pub tls_roots: Vec<ObjId>, // Ccs parked in a user thread-local (C19)
+    pub teardown: bool,
     pub nontrace_since_pass: bool,
     pub pass_count: u32,
     pub leaf_layouts_freed: std::collections::BTreeSet<u8>,
@@ -245,7 +247,8 @@ pub struct World {
     pub check_prop: &'static str, // property of the running check (attribution preference)
     pub trace_log: RefCell<Option<Vec<String>>>, // verbose event log (replay -v)
     pub exact_buf_profile: bool,
-    pub thread_tag: u32,
+    pub thread_tag: std::cell::Cell<u32>,
+    pub last_pred: RefCell<String>,
 }
 
 thread_local! {
@@ -353,6 +356,8 @@ impl World {
                 dropped_this_pass: Vec::new(),
                 trace_seen_in_call: false,
                 threshold_changed: false,
+                tls_roots: Vec::new(),
+                teardown: false,
                 nontrace_since_pass: false,
                 pass_count: 0,
                 leaf_layouts_freed: Default::default(),
@@ -380,7 +385,8 @@ impl World {
             check_prop,
             trace_log: RefCell::new(None),
             exact_buf_profile: exact_buf,
-            thread_tag: 0,
+            thread_tag: std::cell::Cell::new(u32::MAX),
+            last_pred: RefCell::new(String::new()),
         }
     }
 
@@ -407,11 +413,13 @@ impl World {
         }
         self.dead.set(true);
         let props = oracle_props(oracle);
-        let property = if props.contains(&self.check_prop) { self.check_prop } else { props[0] };
+        // in the multi-thread profile every oracle is a per-thread model: a mismatch means interference (C19)
+        let property = if self.check_prop == "C19" || props.contains(&self.check_prop) { self.check_prop } else { props[0] };
         let (op_index, frames) = match self.m.try_borrow() {
             Ok(m) => (m.op_index, format!("{:?}", m.frames.iter().map(|f| f.kind).collect::<Vec<_>>())),
             Err(_) => (0, String::from("?")),
         };
+        let msg = if self.thread_tag.get() != u32::MAX { format!("[thread {}] {}", self.thread_tag.get(), msg) } else { msg };
         let v = Violation { property, oracle, msg, op_index, frames };
         // Printed at once: the process may not survive a corrupted heap.
         println!("@@VIOLATION property={} oracle={} op={} msg={}", v.property, v.oracle, v.op_index, v.msg.replace('\n', " "));
@@ -475,6 +483,7 @@ impl World {
     /// Number of Cc pointers to `o` that exist according to the mirror.
     pub fn count(m: &Model, o: ObjId) -> u32 {
         let mut n = m.root_obj.iter().filter(|r| **r == Some(o)).count() as u32;
+        n += m.tls_roots.iter().filter(|r| **r == o).count() as u32;
         n += m.objs[o as usize].bulk_strong;
         for p in m.objs.iter() {
             if !p.edges.is_empty() {
@@ -505,6 +514,9 @@ impl World {
             push(*o, &mut r, &mut stack);
         }
         for o in m.bag_obj.iter().flatten() {
+            push(*o, &mut r, &mut stack);
+        }
+        for o in m.tls_roots.iter() {
             push(*o, &mut r, &mut stack);
         }
         for (i, ob) in m.objs.iter().enumerate() {
@@ -582,6 +594,25 @@ impl World {
                 ob.stamp = b;
             }
         }
+    }
+
+    /// Forgets every pointer still held by the tables (they belong to a thread that is gone).
+    pub fn leak_tables(&self) {
+        let mut t = self.t.borrow_mut();
+        for r in t.roots.drain(..) {
+            std::mem::forget(r);
+        }
+        for w in t.weaks.drain(..) {
+            std::mem::forget(w);
+        }
+        for c in t.cleanables.drain(..) {
+            std::mem::forget(c);
+        }
+        for b in t.bag.drain(..) {
+            std::mem::forget(b);
+        }
+        std::mem::forget(std::mem::take(&mut t.bulk_strong));
+        std::mem::forget(std::mem::take(&mut t.bulk_weak));
     }
 
     pub fn new_obj(&self, kind: ObjKind, status: Status) -> ObjId {
